@@ -108,6 +108,9 @@ func (op *pipelineOp) exec(fm *Frame) Exception {
 		var fops []formOwnedPort
 		inputIsPipe := i > 0
 		outputIsPipe := i < nforms-1
+		// The reading end of the pipe from the previous form. Remember it
+		// here, since the form may redirect its port 0 to something else.
+		pipeInput := nextIn
 		if inputIsPipe {
 			newFm.ports[0] = nextIn
 			growAccess(&fops, 0).File = true
@@ -139,10 +142,9 @@ func (op *pipelineOp) exec(fm *Frame) Exception {
 				*pexc = exc
 			}
 			if inputIsPipe {
-				input := newFm.ports[0]
-				*input.sendError = errs.ReaderGone{}
-				close(input.sendStop)
-				input.readerGone.Store(true)
+				*pipeInput.sendError = errs.ReaderGone{}
+				close(pipeInput.sendStop)
+				pipeInput.readerGone.Store(true)
 			}
 			for i, fop := range fops {
 				fop.close(newFm.ports[i])
